@@ -550,6 +550,30 @@ def r6(ctx):
     ctx.floor(R, 2)
 
 
+def r7(ctx, R="C01-R7"):
+    ctx.rule(R, "the virtual clock is read only where a paused runtime is current: HostTimer::elapsed / sim_elapsed / since_epoch end in "
+                "tokio's Instant::now(), which is the *wall clock* when no runtime is entered. Their callers are therefore limited to "
+                "the free functions turmoil::elapsed / sim_elapsed / since_epoch (host code, running inside the host's runtime) and to "
+                "bodies that first enter a runtime (Runtime::enter, as Rt::now does); a call from the simulation driver itself "
+                "(Sim::step between hosts, Sim::crash ..) leaks real time into the simulation")
+    HT = re.compile(r"^turmoil::host::HostTimer::(elapsed|sim_elapsed|since_epoch)$")
+    n = 0
+    for b, bb, t in who_calls(ctx.w, HT):
+        root = b
+        while root.parent and root.parent in ctx.w.bodies:
+            root = ctx.w.bodies[root.parent]
+        if root.id.startswith("turmoil::host::HostTimer::"):
+            continue
+        n += 1
+        host_code = root.id in ("turmoil::elapsed", "turmoil::sim_elapsed", "turmoil::since_epoch")
+        entered = [x for x, t2 in b.calls(re.compile(r"^tokio::runtime::(Runtime|Handle)::enter$"))]
+        ok = host_code or (bool(entered) and b.dominated_by_any(bb, blocks=entered))
+        ctx.inst(R, f"clock-read:{root.id}->{t['f'].rsplit('::', 1)[1]}", ok, t["s"], "read from host code / under an entered runtime" if ok else
+                 f"`{root.id}` reads the host clock through `{t['f']}` with no runtime entered: tokio::time::Instant::now() falls back to the wall clock there, so the value "
+                 "(the `now` handed to the simulated filesystem and io_uring: file timestamps, completion times) is epoch + sim time + real elapsed time and differs from run to run")
+    ctx.floor(R, 3)
+
+
 def run(ctx):
     global ACCESSORS
     ACCESSORS = TABLE_ACCESSORS
@@ -559,6 +583,7 @@ def run(ctx):
     r4(ctx)
     r5(ctx)
     r6(ctx)
+    r7(ctx)
 
 
 TABLE_ACCESSORS = GLOBALS
